@@ -365,3 +365,13 @@ Print Assumptions property_value_no_depthout.
 Print Assumptions property_value_total.
 Print Assumptions value_ctor_no_depthout.
 Print Assumptions value_ctor_total.
+
+(* Value / ColorValue / DimensionValue / URIValue on their own (after the repair of value.py): total within the bound *)
+Theorem value_leaf_ctor_total_bounded : forall g, 4 <= g <= 7 -> forall toks d, sane_toks toks -> length toks < d ->
+  exists pc r, postof_env env_real g = Some pc /\ pparse_env d env_real g toks = Ret r /\ post pc r <> PCrash.
+Proof.
+  intros g Hg toks d Hs Hl. destruct (value_leaf_ctor_total g Hg toks d Hs) as [pc [Hpc [H|[r H]]]].
+  - exfalso. exact (value_ctor_no_depthout g ltac:(lia) toks d Hl H).
+  - exists pc, r. split; [exact Hpc|exact H].
+Qed.
+Print Assumptions value_leaf_ctor_total_bounded.
